@@ -283,3 +283,38 @@ Theorem misplaced_element_refuted_proof :
   exists m, read_mesh misplaced_file = Ok m /\
             get_attr 3 "Position" (m_attrs m) = Some [[4619567317775286272; 4620693217682128896; 4621256167635550208]].
 Proof. eexists. split; vm_compute; reflexivity. Qed.
+
+(* ================= per-corner texture coordinates: every corner carries the vertex it references ================= *)
+(* meshops.Unweld as MeshReader.Read uses it: in the unwelded mesh, corner k (position k of the old index buffer) holds,
+   for every attribute, the row of the vertex that corner referenced - whatever the order of the faces, and also when
+   the number of corners happens to equal the number of vertices *)
+Lemma gather_spec {A} (data : list A) idx g : gather data idx = Ok g ->
+  forall k i, nth_error idx k = Some i ->
+    (0 <= i)%Z /\ nth_error g k = nth_error data (Z.to_nat i) /\ nth_error g k <> None.
+Proof.
+  unfold gather. intros H k i Hk.
+  destruct (mapR_nth _ _ _ _ _ H Hk) as [y [Hy Hf]].
+  destruct (i <? 0)%Z eqn:Neg; [discriminate|].
+  destruct (nth_error data (Z.to_nat i)) as [v|] eqn:D; cbn [of_opt] in Hf; [|discriminate].
+  apply ok_inj in Hf. subst y. split; [apply Z.ltb_ge in Neg; exact Neg|]. split; [exact Hy|]. rewrite Hy. discriminate.
+Qed.
+
+Theorem corner_carries_vertex_proof : forall (l : list attr) idx ua,
+  unweld_attrs l idx = Ok ua ->
+  forall j d n data, nth_error l j = Some (d, n, data) ->
+    exists g, nth_error ua j = Some (d, n, g) /\ length g = length idx /\
+              forall k i, nth_error idx k = Some i -> nth_error g k = nth_error data (Z.to_nat i) /\ nth_error g k <> None.
+Proof.
+  unfold unweld_attrs. intros l idx ua H j d n data Hj.
+  destruct (mapR_nth _ _ _ _ _ H Hj) as [y [Hy Hf]]. cbn beta iota in Hf.
+  destruct (gather data idx) as [g|] eqn:G; cbn [rbind] in Hf; [|discriminate].
+  apply ok_inj in Hf. subst y. exists g. split; [exact Hy|]. split.
+  - unfold gather in G. apply mapR_length in G. exact G.
+  - intros k i Hk. destruct (gather_spec data idx g G k i Hk) as [_ R]. exact R.
+Qed.
+
+(* CRLF at file level: a file whose header text has CRLF line ends loads like the file with LF line ends *)
+From PF Require Import Formats.PlyText Formats.PlyTextProofs.
+Theorem crlf_file_loads_alike_proof : forall text b,
+  read_mesh {| pf_header := header_lines (crlf text); pf_body := b |} = read_mesh {| pf_header := header_lines text; pf_body := b |}.
+Proof. intros. rewrite crlf_ignored_proof. reflexivity. Qed.
